@@ -561,6 +561,8 @@ class SamplingMethod(DirectMethod):
             self.transcribe_start(stage, opti)
 
             # Grid for B-spline
+            if isinstance(self.time_grid, FreeGrid) and (stage.variables['bspline'] or stage.parameters['bspline']):
+                raise Exception("grid='bspline' variables/parameters are not supported on a FreeGrid: their knots would not follow the control grid.")
             self.xi = ca.vec(DM(self.time_grid(0, 1, self.N))).T
 
             # Parameters needed before variables because of self.T = self.eval(stage, stage._T)
